@@ -231,6 +231,11 @@ func (_this *RulesEventReceiver) OnUID(value []byte) {
 }
 
 func (_this *RulesEventReceiver) OnTime(value compact_time.Time) {
+	if value.IsZeroValue() {
+		// A zero time value is encoded as null
+		_this.OnNull()
+		return
+	}
 	_this.context.ValidateTime(value)
 	_this.context.NotifyNewObject(true)
 	_this.context.CurrentEntry.Rule.OnKeyableObject(&_this.context, DataTypeTime, value)
